@@ -27,7 +27,7 @@ contract(f"{Q}.to",
          allow_exc=_to_exc,
          ensures={"fresh": "fresh(result) and result != self", "registry": "result._REGISTRY == self._REGISTRY",
                   "same_value": "Phys(result) == Phys(self)", "same_dim": "SameDim(result, self)",
-                  "q_self": "QWF(self)", "q": "QWF(result)", "hashes": "HashesKept()",
+                  "q": "QWF(result)", "hashes": "HashesKept()",
                   "self_untouched": "self._magnitude == old(self._magnitude) and self._units == old(self._units)"},
          modifies=_mods,
          theories=("lin", "fac", "facdiff"),
